@@ -120,7 +120,9 @@ func ParseHeaderDirective(header http.Header) *HeaderDirectives {
 			if t, err := time.Parse(http.TimeFormat, value); err == nil {
 				hd.Expires.value = typeutils.Some(t)
 			} else {
+				// An invalid date (especially "0") represents a time in the past, i.e. already expired (RFC 9111 section 5.3)
 				slog.Debug("Error parsing Expires header", "error", err, "value", value)
+				hd.Expires.value = typeutils.Some(time.Time{})
 			}
 		}
 	}
